@@ -797,11 +797,183 @@ func c17window(c *core.Ctx) {
 	c.Rep.Scenarios++
 }
 
+// smallChunkBody: the sender goroutine is stuck in conn.Write with a SMALL chunk (it picked
+// up the only message there was; the peer reads through a 50-byte pipe), the ring fills up
+// behind it with 1000-byte messages, and a message that needs more room than the small chunk
+// will free parks in the wait for ring space.  When the peer reads on, the sender commits the
+// small chunk and wakes the producer - with too little room for its message: it has to wait
+// again.  pre: messages sent and read completely before, so that the episode happens at
+// another place of the ring (and on a later lap).  Returns the body and a pointer to the
+// verdict text ("" = fine).
+func smallChunkBody(pre []int, small, fill, bigMsg int) func() {
+	return func() {
+		service.VerifResetGlobals()
+		message.VerifSetPacketIDCounter(0)
+		topics.VerifResetProviders()
+		ln, err := vnet.Listen("tcp", addr)
+		if err != nil {
+			vsched.Failf("harness: %v", err)
+			return
+		}
+		cconn, _ := vnet.DialCap(addr, 50, 0)
+		sconn, _ := ln.Accept()
+		peer, err := service.VerifNewPeer(cconn, true, 16384, 600, "peer", nil)
+		if err != nil {
+			vsched.Failf("harness: %v", err)
+			return
+		}
+		rd := &RawClient{Name: "reader", Conn: sconn, vc: sconn.(*vnet.Conn), pendRel: map[uint16]bool{}}
+		var want []string
+		publish := func(n int) bool {
+			i := len(want)
+			pl := fmt.Sprintf("%06d:%s", i, big(n, byte(i)))
+			want = append(want, pl)
+			m := message.NewPublishMessage()
+			m.SetTopic([]byte("s"))
+			m.SetPayload([]byte(pl))
+			if err := peer.Publish(m, nil); err != nil {
+				vsched.Failf("publish %d failed: %v", i, err)
+				return false
+			}
+			return true
+		}
+		drain := func(until func() bool) bool {
+			for i := 0; i < 400000; i++ {
+				vsched.Quiesce()
+				if !rd.pump() {
+					if until() {
+						return true
+					}
+					vsched.Failf("nothing moves although %d of %d messages have not arrived", len(want)-len(rd.Packets), len(want))
+					return false
+				}
+				if rd.Bad != "" {
+					vsched.Failf("after %d packets: %s", len(rd.Packets), rd.Bad)
+					return false
+				}
+			}
+			return false
+		}
+		for _, n := range pre {
+			if !publish(n) || !drain(func() bool { return true }) {
+				return
+			}
+		}
+		if !publish(small) {
+			return
+		}
+		vsched.Quiesce() // the sender has picked the small message up and waits for the peer
+		vsched.Mark()
+		done := false
+		nfill := fill
+		vsched.Go("writer", func() {
+			for i := 0; i < nfill; i++ {
+				if !publish(1000) {
+					return
+				}
+			}
+			if publish(bigMsg) {
+				done = true
+			}
+		})
+		if !drain(func() bool { return done }) {
+			return
+		}
+		if len(rd.rx) > 0 {
+			vsched.Failf("the stream ends with %d bytes of an incomplete packet", len(rd.rx))
+			return
+		}
+		got := rd.Take()
+		if len(got) != len(want) {
+			vsched.Failf("%d messages were written, %d packets arrived", len(want), len(got))
+			return
+		}
+		for i, p := range got {
+			if p.Type != refcodec.PUBLISH || string(p.Topic) != "s" || string(p.Payload) != want[i] {
+				vsched.Failf("packet %d on the stream is not message %d as it was written", i, i)
+				return
+			}
+		}
+		vsched.Logf("ok %d", len(want))
+	}
+}
+
+type smallChunkCase struct {
+	name                string
+	pre                 []int
+	small, fill, bigMsg int
+}
+
+func smallChunkCases(thorough bool) []smallChunkCase {
+	var out []smallChunkCase
+	pres := map[string][]int{"ring start": nil, "second lap": {6000, 6000, 6000, 6000}, "mid ring": {5000}, "near the ring end": {6000, 6000, 1500}}
+	names := []string{"ring start", "second lap", "mid ring", "near the ring end"}
+	for _, pn := range names {
+		for _, small := range []int{100, 700} {
+			for _, bigMsg := range []int{2800, 9000} {
+				if !thorough && (small == 700) != (bigMsg == 9000) {
+					continue
+				}
+				// as many 1000-byte messages as fit behind the small one, and one fewer
+				fit := (16384 - (small + 20)) / 1012
+				for _, fill := range []int{fit, fit - 1} {
+					out = append(out, smallChunkCase{fmt.Sprintf("sender stuck with %d bytes at %s, %d x 1000 bytes behind it, then %d bytes", small, pn, fill, bigMsg), pres[pn], small, fill, bigMsg})
+				}
+			}
+		}
+	}
+	return out
+}
+
+// c17smallChunk: see smallChunkBody (default schedule; C18 explores the same bodies under
+// deviations with the race detector).
+func c17smallChunk(c *core.Ctx) {
+	for ni, sc := range smallChunkCases(c.Thorough()) {
+		if c.NShards > 1 && ni%c.NShards != c.Shard {
+			continue
+		}
+		name := "small-chunk: " + sc.name
+		if c.Replay != nil && c.Replay.Scenario != name {
+			continue
+		}
+		if c.Expired() || c.HasViolation() {
+			return
+		}
+		res := explore.RunDefault(smallChunkBody(sc.pre, sc.small, sc.fill, sc.bigMsg))
+		if c.Replay != nil {
+			fmt.Println("replay:", name, res.Failures, firstLine(res.Crash))
+			c.Rep.Scenarios++
+			return
+		}
+		c.Rep.Executions++
+		c.Rep.States++
+		c.Rep.Scenarios++
+		c.Rep.Transitions += int64(len(res.Points))
+		v := ""
+		if res.Status == vsched.StCrash {
+			v = "a library goroutine panicked: " + firstLine(res.Crash)
+		} else if len(res.Failures) > 0 {
+			v = res.Failures[0]
+		} else if res.Status == vsched.StHorizon {
+			v = "harness: the execution did not finish within the point limit"
+		}
+		if v != "" {
+			if c.Violate("C17 small-chunk :: "+violClass(v), core.Replay{Scenario: name, Message: v, Log: res.Log}) {
+				return
+			}
+		}
+	}
+}
+
 // C17: whole packets, per-publisher order.
 func C17(c *core.Ctx) {
-	c.Rep.Bound = "(stream, default schedule) one writer, five size patterns, 4 (quick) / 12 (thorough) laps round the outgoing ring, each with a prompt reader and with a slow reader behind a 700-byte pipe (every wrap happens on a full ring); SCHED: (narrow) 2-3 goroutines publishing 1-2 messages each through one service peer whose out ring was pre-rolled so that a packet wraps, all interleavings for one message per goroutine, <= 2 (quick) / 3 (thorough) preemptions otherwise; (broker) 2 raw publishers x 1-3 messages at QoS 0/1/2 to 2 subscribers through the real broker, every schedule that deviates from the default (run-until-blocked, lowest thread first) schedule at <= 1 (quick) / 2 (thorough) scheduling points, after a default-schedule set-up"
+	c.Rep.Bound = "(stream, default schedule) one writer, five size patterns, 4 (quick) / 12 (thorough) laps round the outgoing ring, each with a prompt reader and with a slow reader behind a 700-byte pipe (every wrap happens on a full ring); the sender stuck with a small chunk while the ring fills behind it and a larger message waits for room (4 ring positions, 2 chunk sizes, 2 message sizes, ring full / one message short of full); SCHED: (narrow) 2-3 goroutines publishing 1-2 messages each through one service peer whose out ring was pre-rolled so that a packet wraps, all interleavings for one message per goroutine, <= 2 (quick) / 3 (thorough) preemptions otherwise; (broker) 2 raw publishers x 1-3 messages at QoS 0/1/2 to 2 subscribers through the real broker, every schedule that deviates from the default (run-until-blocked, lowest thread first) schedule at <= 1 (quick) / 2 (thorough) scheduling points, after a default-schedule set-up"
 	c.Rep.Rule = "oracle at quiescence: every connection's byte stream parses under the strict reference codec into whole packets, each message arrives exactly once with intact topic and payload, and the sequence numbers of each publisher arrive in order at each subscriber"
 	c17stream(c)
+	if c.HasViolation() || c.Expired() {
+		return
+	}
+	c17smallChunk(c)
 	if c.HasViolation() || c.Expired() {
 		return
 	}
